@@ -448,6 +448,16 @@ func (f *Flow) OwnOnly(paths []Path) []Path {
 	return ownOnly(paths, f.P.CallGraph(), root)
 }
 
+// OwnCode keeps the function's own statements including the bodies of its callbacks that a helper
+// called on the spot (withLock(func(){…})): code written in the function, nothing written elsewhere.
+func (f *Flow) OwnCode(paths []Path) []Path {
+	root := ""
+	if f.self != nil {
+		root = f.self.Key
+	}
+	return ownOnly(paths, nil, root)
+}
+
 func ownOnly(paths []Path, g *CallGraph, root string) []Path {
 	var out []Path
 	seen := map[string]bool{}
@@ -455,13 +465,25 @@ func ownOnly(paths []Path, g *CallGraph, root string) []Path {
 		np := Path{Exit: p.Exit}
 		var sig strings.Builder
 		for _, e := range p.Ev {
-			if e.Depth > 0 && (g == nil || root == "" || e.From == "" || !g.PrivateTo(e.From, root)) {
-				continue
+			if e.Depth > 0 {
+				own := root != "" && e.From == root
+				if !own && g != nil && root != "" && e.From != "" && g.PrivateTo(e.From, root) {
+					own = true
+				}
+				if !own {
+					continue
+				}
 			}
 			if e.Depth > 0 {
 				// part of the function: present it as its own code
-				if e.Kind == EvInlReturn || e.Kind == EvInlEnd {
+				if e.Kind == EvInlEnd {
 					continue
+				}
+				if e.Kind == EvInlReturn {
+					if e.From != root {
+						continue
+					}
+					e.Kind = EvReturn // a callback written in the function returns to the helper that runs it, which hands the value on
 				}
 				e.Depth = 0
 			}
